@@ -351,6 +351,7 @@ def execute(trace):
                             duplicate_triples=_dup_flags(texts, r.stdout, model),
                             input_has_inverted_attribute=_has_inverted_attribute(texts, model, spec),
                             first_has_normalisable_role=_has_normalisable_role(r.stdout, spec),
+                            canonicalised_input_has_normalisable_role=_canonicalised_input_dirty(seq, model, spec),
                             **detail)
             if trace.get('pipeline') and r3.exc is None and r3.exit == 0:
                 pipeline_mode(trace, spec, opts, stdin, texts, r3, res, detail)
@@ -446,6 +447,27 @@ def _ngraphs(trace, stdin, texts):
     if stdin:
         return len(graphs)
     return sum(len(parts[i]) for i in file_order(trace, len(parts)))
+
+
+def _canonicalised_input_dirty(texts, model, spec):
+    """After canonicalize_roles, does any input tree still use a spelling the model normalises?
+    (If so, a non-fixed point is canonicalize_roles' own doing and not known finding F19.)"""
+    import penman
+    from penman import transform
+    from ..ref.roles import model_ref
+    mref = model_ref(spec)
+    if not mref.normalizations:
+        return False
+    try:
+        for text in texts:
+            for t in penman.iterparse(text):
+                ct = transform.canonicalize_roles(t, model)
+                for _, (role, _tgt) in ct.walk():
+                    if role.split('~')[0] in mref.normalizations:
+                        return True
+    except Exception:
+        return None
+    return False
 
 
 def _content(g):
@@ -592,7 +614,8 @@ def _known_inverted_attribute_reified(trace, v):
 def _known_dereify_after_canonicalize(trace, v):
     o = trace.get('options', {})
     return (v.sig == 'normal_form:output-not-a-fixed-point' and o.get('canonicalize_roles')
-            and v.detail.get('first_has_normalisable_role') is True)
+            and v.detail.get('first_has_normalisable_role') is True
+            and v.detail.get('canonicalised_input_has_normalisable_role') is False)
 
 
 KNOWN = {'multifile_separator': _known_multifile_separator,
